@@ -3,9 +3,11 @@
    create the a-side map; it copies the a-side columns with chunked_copy (identity, MergeBase.chunked_copy_id).
    Here: if the hint is truthful (b strictly sorted) every a row has exactly one row in the left join, so the
    a side of join_pairs is [Some 0; ...; Some (n-1)], and gathering a well-formed column through that list
-   returns the column itself.  Hence ordered_dest = map fields ++ merge_spec for EVERY variant. *)
+   returns the column itself.  Hence ordered_dest = map fields ++ merge_spec for EVERY variant.
+   Reconciled with extension E7 (fix-F-C02f): the mapped side needs only an in-range map (join_snd_in_range), so
+   `sorted lk`, `sorted rk` and `nbd` are no longer hypotheses — keys repeated on both sides included. *)
 From Coq Require Import ZArith List Lia Bool.
-From EV Require Import Res Arr Join JoinSpec JoinBase JoinIface JoinRows MapStream MapStreamSpec MapIndexedDriver
+From EV Require Import Res Arr Join JoinSpec JoinBase JoinIface JoinRows MapStream MapStreamSpec MapStreamBase MapIndexedDriver
   Merge MergeSpec MergeBase MergeOrdered MergeMaps MergeTop MergeRows.
 Import ListNotations.
 Open Scope Z_scope.
@@ -156,10 +158,57 @@ Proof.
 Qed.
 
 (* ---------------------------------------------------------------- every variant: ordered_dest = maps ++ merge_spec *)
+(* the a-side columns (the ones _ordered_merge copies when the a-side map is absent) *)
+Definition sel_acols (how:Z) (lcols rcols:frame) : frame := if how =? 1 then rcols else lcols.
+
+(* most general form: mapped columns need only the right number of offsets (idx_len_ok); only where the a-side map
+   is not written (unique hint on the b side) the hint must be truthful and the copied columns well formed.
+   Subsumes MergeRows.ordered_dest_is_merge_spec (the case v_writes_l = true). *)
+Theorem ordered_dest_is_merge_spec_gen how lu ru lk rk lcols rcols lsuf rsuf :
+  let inv := merge_invalid lu ru (len lk) (len rk) in
+  how = 0 \/ how = 1 \/ how = 2 ->
+  len lk <= inv -> len rk <= inv ->
+  idx_len_ok (len lk) lcols -> idx_len_ok (len rk) rcols ->
+  (v_writes_l (sel_variant how lu ru) = false ->
+     ssorted (sel_b how lk rk) /\ frame_wf (len (sel_a how lk rk)) (sel_acols how lcols rcols)) ->
+  ordered_dest how lu ru lk rk lcols rcols lsuf rsuf
+  = map_fields (fst (jmaps how lu ru lk rk inv)) (snd (jmaps how lu ru lk rk inv)) ++
+    merge_spec how [lk] [rk] lcols rcols lsuf rsuf.
+Proof.
+  intros inv Hhow HiL HiR HcL HcR Hu.
+  destruct (v_writes_l (sel_variant how lu ru)) eqn:Hw.
+  { apply ordered_dest_is_merge_spec; assumption. }
+  destruct (Hu eq_refl) as (Hb & Hwf). clear Hu.
+  unfold ordered_dest. fold inv. unfold jmaps. rewrite Hw.
+  unfold merge_spec. rewrite !key_rows_single.
+  set (v := sel_variant how lu ru) in *.
+  destruct Hhow as [E|[E|E]]; subst how; cbn [Z.eqb Pos.eqb sel_a sel_b sel_acols fst snd] in *; f_equal.
+  - (* left, right side unique: the left columns are copied *)
+    assert (Hv : v_left v = true) by reflexivity. rewrite Hv.
+    unfold join_pairs. cbn [Z.eqb]. f_equal.
+    + rewrite (left_pairs_fst_all inv lk rk HiR Hb). apply side_out_copy. exact Hwf.
+    + rewrite (left_pairs_jf inv rk HiR). rewrite <- jf_spec.
+      apply (side_out_spec _ _ _ _ _ (len rk)); [rewrite jf_spec; apply join_snd_in_range| |exact HcR].
+      apply map_opt_snd.
+  - (* right, left side unique: the right columns are copied *)
+    assert (Hv : v_left v = true) by reflexivity. rewrite Hv.
+    unfold join_pairs. cbn [Z.eqb Pos.eqb]. rewrite swap_fst, swap_snd. f_equal.
+    + rewrite (left_pairs_jf inv lk HiL). rewrite <- jf_spec.
+      apply (side_out_spec _ _ _ _ _ (len lk)); [rewrite jf_spec; apply join_snd_in_range| |exact HcL].
+      apply map_opt_snd.
+    + rewrite (left_pairs_fst_all inv rk lk HiL Hb). apply side_out_copy. exact Hwf.
+  - (* inner always writes both maps *)
+    discriminate Hw.
+Qed.
+
+Lemma frame_wf_sel how lk rk lcols rcols : frame_wf (len lk) lcols -> frame_wf (len rk) rcols ->
+  frame_wf (len (sel_a how lk rk)) (sel_acols how lcols rcols).
+Proof. unfold sel_a, sel_acols. destruct (how =? 1); intros; assumption. Qed.
+
+(* the form with one hypothesis per frame (frame_wf = frame_ok without the value-buffer bound) *)
 Theorem ordered_dest_is_merge_spec_all how lu ru lk rk lcols rcols lsuf rsuf :
   let inv := merge_invalid lu ru (len lk) (len rk) in
   how = 0 \/ how = 1 \/ how = 2 ->
-  sorted lk -> sorted rk -> nbd (sel_a how lk rk) (sel_b how lk rk) ->
   (* the unique hint on the b side, where it is given (the a-side map is then not written), is truthful *)
   (v_writes_l (sel_variant how lu ru) = false -> ssorted (sel_b how lk rk)) ->
   len lk <= inv -> len rk <= inv ->
@@ -168,28 +217,21 @@ Theorem ordered_dest_is_merge_spec_all how lu ru lk rk lcols rcols lsuf rsuf :
   = map_fields (fst (jmaps how lu ru lk rk inv)) (snd (jmaps how lu ru lk rk inv)) ++
     merge_spec how [lk] [rk] lcols rcols lsuf rsuf.
 Proof.
-  intros inv Hhow HL HR Hd Hu HiL HiR HwL HwR.
-  destruct (v_writes_l (sel_variant how lu ru)) eqn:Hw.
-  { apply ordered_dest_is_merge_spec; try assumption; apply frame_wf_idx_len_ok; assumption. }
-  specialize (Hu eq_refl).
-  unfold ordered_dest. fold inv. unfold jmaps. rewrite Hw.
-  unfold merge_spec. rewrite !key_rows_single.
-  set (v := sel_variant how lu ru) in *.
-  destruct Hhow as [E|[E|E]]; subst how; cbn [Z.eqb Pos.eqb sel_a sel_b fst snd] in *; f_equal.
-  - (* left, right side unique: the left columns are copied *)
-    assert (Hv : v_left v = true) by reflexivity. rewrite Hv.
-    unfold join_pairs. cbn [Z.eqb]. f_equal.
-    + rewrite (left_pairs_fst_all inv lk rk HiR Hu). apply side_out_copy. exact HwL.
-    + rewrite (left_pairs_jf inv rk HiR). rewrite <- jf_spec.
-      apply (side_out_spec _ _ _ _ _ (len rk)); [rewrite jf_spec; apply join_snd_valid; assumption| |apply frame_wf_idx_len_ok; exact HwR].
-      apply map_opt_snd.
-  - (* right, left side unique: the right columns are copied *)
-    assert (Hv : v_left v = true) by reflexivity. rewrite Hv.
-    unfold join_pairs. cbn [Z.eqb Pos.eqb]. rewrite swap_fst, swap_snd. f_equal.
-    + rewrite (left_pairs_jf inv lk HiL). rewrite <- jf_spec.
-      apply (side_out_spec _ _ _ _ _ (len lk)); [rewrite jf_spec; apply join_snd_valid; assumption| |apply frame_wf_idx_len_ok; exact HwL].
-      apply map_opt_snd.
-    + rewrite (left_pairs_fst_all inv rk lk HiL Hu). apply side_out_copy. exact HwR.
-  - (* inner always writes both maps *)
-    discriminate Hw.
+  intros inv Hhow Hu HiL HiR HwL HwR.
+  apply ordered_dest_is_merge_spec_gen; try assumption; try (apply frame_wf_idx_len_ok; assumption).
+  intros Hw. split; [exact (Hu Hw)|apply frame_wf_sel; assumption].
+Qed.
+
+(* the hypotheses of ordered_dest_is_merge_spec_gen are satisfiable in both cases *)
+Example rows_hyps_example :
+  (v_writes_l (sel_variant 0 false false) = true /\ len [1;1;2;3;3] <= merge_invalid false false 5 5 /\
+   idx_len_ok 5 [([120;97], CIdx [0;1;1;3;4;6] [97;99;99;100;101;101])]) /\
+  (v_writes_l (sel_variant 0 false true) = false /\ ssortedb (sel_b 0 [1;2;2;5] [0;2;3;4]) = true /\
+   len [1;2;2;5] <= merge_invalid false true 4 4 /\
+   frame_wf (len (sel_a 0 [1;2;2;5] [0;2;3;4])) (sel_acols 0 [([120;97], CIdx [0;1;1;3;4] [97;99;99;100])] [])).
+Proof.
+  split; [split; [reflexivity|split; [vm_compute; congruence|]]|split; [reflexivity|split; [reflexivity|split; [vm_compute; congruence|]]]].
+  - intros f [<-|[]]. reflexivity.
+  - intros f [<-|[]]. cbn [snd]. split; [|reflexivity].
+    split; [vm_compute; congruence|]. split; [reflexivity|]. split; [apply sortedb_sorted; reflexivity|reflexivity].
 Qed.
